@@ -115,10 +115,27 @@ def corrupt_statement(text, v):
     if v == 7:
         i = text.find("=")
         return None if i < 0 else text[:i] + text[i + 1:]
+    if v in (8, 9):
+        idx = [i for i, ch in enumerate(text) if ch in "-+*/:%<>.&" ]
+        if not idx:
+            return None
+        i = idx[0] if v == 8 else idx[-1]
+        return text[:i] + text[i] + text[i:]                          # doubled operator character
+    if v == 10:
+        i = text.find("=", text.find("(") + 1) if "(" in text else -1
+        if i < 0:
+            return None
+        j = i + 1
+        while j < len(text) and text[j] not in ",)":
+            j += 1
+        return text[:i + 1] + text[j:]                                # keyword= with no value
+    if v == 11:
+        i = text.rfind(",")
+        return None if i < 0 else text[:i + 1] + " ," + text[i + 1:]  # empty item before the last one
     return None
 
 
-NCORRUPT = 8
+NCORRUPT = 12
 
 
 def systematic_jobs(seed, std, nprog):
@@ -266,8 +283,9 @@ def run(ctx):
     e2e = dict(cases=len(jobs) + len(fjobs), distinct=len(set(j[1] for j in jobs)), failures=failures,
                outcome_histogram=hist,
                systematic_corruptions=len(jobs) - nrand,
-               rule="EVERY statement of generated programs x 8 systematic corruptions (last ')' / first '(' / first '=' "
-                    "deleted, truncated, last or first token lost, stray or doubled comma); 1-3 token/character/line mutations (delete, duplicate, swap, replace by punctuation/keywords, "
+               rule="EVERY statement of generated programs x 12 systematic corruptions (last ')' / first '(' / first '=' "
+                    "deleted, truncated, last or first token lost, stray or doubled comma, doubled operator character, keyword= "
+                    "without value, empty list item); 1-3 token/character/line mutations (delete, duplicate, swap, replace by punctuation/keywords, "
                     "insert a character) of generated programs and unstructured text over the Fortran character "
                     "set, both standards, comments kept or dropped, %d s alarm per input; files with invalid UTF-8 "
                     "through FortranFileReader; escapes are keyed by exception type and innermost fparser frames"
